@@ -136,6 +136,10 @@ func init() {
 		"google.golang.org/protobuf/proto.Marshal":   ext۰proto۰Marshal,
 		"google.golang.org/protobuf/proto.Unmarshal": ext۰proto۰Unmarshal,
 		"google.golang.org/protobuf/proto.Clone":     ext۰proto۰Clone,
+		// logging is formatting only: empty bodies
+		"log.Printf":  noop,
+		"log.Println": noop,
+		"log.Print":   noop,
 	} {
 		externals[k] = v
 	}
